@@ -168,6 +168,19 @@ UNITS.update({
         "complete": "unbounded: every 63-bit z and every 64-bit scaled ccs",
         "timeout": 600,
     },
+    "U-SK": {
+        "backend": "verus",
+        "template": "contracts/sk.vc",
+        "trusted": ["Verus 0.2026.09.13 / Z3; vstd",
+                    "model of bit_vec::BitVec and of itertools chunks over its iterator with skip/take (vx_chunk / vx_nchunks)",
+                    "secret-key field codec contracts (discharged by Kani in U-SKF on the real BitVec)",
+                    "D4 ASSUMED: the tail of SecretKey::from_bytes (recomputation of G through the NTT, from_b0, sign plumbing of b0) stores the decoded f, g, F as b0 = [g, -f, G, -F] and does not panic",
+                    "usize::checked_ilog2 (assume_specification); FalconVariant::from_n / parameters (U-VERIFY)"],
+        "assumption_lines": [r"external_body", r"assume_specification"],
+        "dropped": ["D4: tail of from_bytes from `let capital_g = ...` replaced by the call vx_sk_assemble(f, g, capital_f)"],
+        "complete": "unbounded: every byte string",
+        "timeout": 900,
+    },
     "U-CODEC": {
         "backend": "verus",
         "template": "contracts/codec.vc",
@@ -291,7 +304,7 @@ PROPS.update({
     },
 })
 
-PROPS["C06fast"] = dict(PROPS["C06"], quick=["U-PK", "U-SKF"])
+PROPS["C06fast"] = dict(PROPS["C06"], quick=["U-PK", "U-SK", "U-SKF"])
 
 PROPS.update({
     "C09": {
